@@ -13,6 +13,7 @@ func init() {
 		func(a *An) {
 			a.c16CommitTable()
 			a.c16CheckVersion()
+			a.c15FragmentPrefix()
 			a.c16Emit()
 			a.c16PassThrough()
 			a.noEscapeOfWiped("S.no-escape-of-wiped")
@@ -556,6 +557,34 @@ func (a *An) c16Whitespace() {
 		tt := a.C.Term(inner.Call.Args[1])
 		R.Check(strings.Contains(tt, "$message[(bytes.Index($message, global:whitespaceTagHeader) + len(global:whitespaceTagHeader)):]"), rule, "extractWhitespaceTag|tail", "text after the tag starts right after the tag header and its version groups", a.C.InstrPos(inner), "tail is "+tt)
 		_ = tail
+	}
+	// the scan over the 8-character groups stops only when there is no further all-whitespace group
+	loops := naturalLoops(fn)
+	if naw := a.uniqueCall(rule, fn, "nextAllWhite"); naw != nil {
+		l := loopContaining(loops, naw)
+		if l == nil {
+			R.Viol(rule, "extractWhitespaceTag|scan-loop", "the version groups are scanned in a loop", a.C.InstrPos(naw), "nextAllWhite is not called in a loop")
+		} else {
+			for i, ex := range l.Exits() {
+				iff, isIf := ex.From.Instrs[len(ex.From.Instrs)-1].(*ssa.If)
+				ok := false
+				if isIf {
+					c := iff.Cond
+					if u, isU := c.(*ssa.UnOp); isU {
+						c = u.X
+					}
+					if sc := statusCall(c); sc == naw {
+						ok = true
+					}
+				}
+				R.Check(ok, rule, fmt.Sprintf("extractWhitespaceTag|scan-exit#%d", i+1), "the scan ends only when nextAllWhite finds no further group (all offered versions are read and removed)", a.C.InstrPos(ex.From.Instrs[len(ex.From.Instrs)-1]),
+					"the scan over the tag groups can stop early: later version tags are neither recorded nor removed from the text")
+			}
+		}
+	}
+	for _, r := range a.returnsOf(fn) {
+		t := a.C.Term(r.Results[1])
+		R.Check(strings.Contains(t, " | 8)") && strings.Contains(t, " | 4)") && !strings.Contains(t, "/ 8 /") && !strings.Contains(t, "phi(8 /") && !strings.Contains(t, "/ 8)") && !strings.Contains(t, "/ 4 /") && !strings.Contains(t, "phi(4 /") && !strings.Contains(t, "/ 4)"), rule, "extractWhitespaceTag|versions-or", "offered versions are accumulated with OR (bit 3 for v3, bit 2 for v2)", a.C.InstrPos(r), "versions = "+t)
 	}
 	if nf := a.MustFn("nextAllWhite"); nf != nil {
 		for _, r := range a.returnsOf(nf) {
